@@ -52,8 +52,17 @@ def seeded():
                    f"{esc(str(c.get('full_suite_with_patch',''))[:60])} | {esc(str(m.get('detection',''))[:300])} |")
     return "\n".join(out)
 
+def asbuilt():
+    m = json.load(open(f'{V}/MANIFEST.json'))
+    out = []
+    for c in m['checks']:
+        out.append(f"* **{c['property_id']}** ({c['level_claimed']['category']}) — {c['level_claimed']['text']}\n  *Trusted / limits:* {c.get('level_note','')}")
+    for x in m['not_applicable']:
+        out.append(f"* **{x['property_id']}** — not claimed: {x['reason']}")
+    return "\n".join(out)
+
 s = open(f'{V}/DESIGN.md').read()
-for name, fn in (("findings", findings), ("axioms", axioms), ("seeded", seeded)):
+for name, fn in (("findings", findings), ("axioms", axioms), ("seeded", seeded), ("asbuilt", asbuilt)):
     b, e = f"<!-- BEGIN:{name} -->", f"<!-- END:{name} -->"
     if b in s:
         i, j = s.index(b) + len(b), s.index(e)
